@@ -241,8 +241,11 @@ def drive(recipe):
     t["fresh"] = {"exc": "", "off": False, "mats": []}
     try:
         for s in sg.symmetry_operations:
-            s.translation[:] = (np.asarray(s.translation) + 0.25) % 1
-            s.rotation[:] = -np.asarray(s.rotation)
+            try:
+                s.translation[:] = (np.asarray(s.translation) + 0.25) % 1
+                s.rotation[:] = -np.asarray(s.rotation)
+            except ValueError:
+                break                      # operations handed out read-only: there is nothing a caller could edit
         sg2 = SpaceGroup(row["number"], choice=row["choice"]) if row["choice"] else SpaceGroup(row["number"])
         off = False
         for s in sg2.symmetry_operations:
